@@ -224,9 +224,12 @@ struct Shared {
     stats: ReaderStats,
 }
 
-pub struct SimFileReader {
+pub struct SimFileReader<'a> {
     fs: FsSpec,
     shared: Rc<RefCell<Shared>>,
+    /// run once, at the first open: the host's reader re-enters the rewriter (a require hook
+    /// firing while a map file is being loaded rewrites another file on another instance)
+    reenter: RefCell<Option<Box<dyn FnOnce() + 'a>>>,
 }
 
 pub struct SimRead {
@@ -236,9 +239,10 @@ pub struct SimRead {
     shared: Rc<RefCell<Shared>>,
 }
 
-impl SimFileReader {
-    pub fn new(fs: &FsSpec, plan: &FaultPlan) -> SimFileReader {
+impl<'a> SimFileReader<'a> {
+    pub fn new(fs: &FsSpec, plan: &FaultPlan) -> SimFileReader<'a> {
         SimFileReader {
+            reenter: RefCell::new(None),
             fs: fs.clone(),
             shared: Rc::new(RefCell::new(Shared {
                 plan: plan.clone(),
@@ -252,14 +256,23 @@ impl SimFileReader {
     pub fn stats(&self) -> ReaderStats {
         self.shared.borrow().stats.clone()
     }
+    pub fn with_reenter(self, f: Box<dyn FnOnce() + 'a>) -> SimFileReader<'a> {
+        *self.reenter.borrow_mut() = Some(f);
+        self
+    }
 }
 
 fn fire(sh: &mut Shared, name: &str) {
     *sh.stats.faults_fired.entry(name.to_string()).or_insert(0) += 1;
 }
 
-impl FileReader<SimRead> for SimFileReader {
+impl<'a> FileReader<SimRead> for SimFileReader<'a> {
     fn read(&self, path: &Path) -> io::Result<SimRead> {
+        let re = self.reenter.borrow_mut().take();
+        if let Some(f) = re {
+            f();
+            fire(&mut self.shared.borrow_mut(), "reentrant-rewrite-from-reader");
+        }
         let mut sh = self.shared.borrow_mut();
         if sh.plan.open_latency_ms > 0 {
             instant::sim::advance(std::time::Duration::from_millis(sh.plan.open_latency_ms));
